@@ -41,7 +41,8 @@ def read_code(path):
 
 
 def header_tokens(name):
-    return toks(b'package._c["' + name + b'"]=function()')
+    # the key is compared by value: any spelling that denotes the package name is fine
+    return toks(b'package._c[') + [('string', bytes(name))] + toks(b']=function()')
 
 
 def find_sub(hay, needle, start=0):
@@ -299,6 +300,40 @@ def nested_loadpath_cases():
     return out
 
 
+ODD_NAMES = [b'we"ird', b"it's", b'back\\slash', b'sp ace', b'br]]ack', b'do"uble"d', b'q"\'both', b'tr.ailing.', b'-dash',
+             b'a"\\"b', b'end', b'#hash', b'per%cent', b'[[x]]', b'lib\\tools', b'a\\nb', b'x\\', b'\\\\unc']
+
+
+def lua_literals(name):
+    """Spellings of a string literal denoting `name` that a package author can use."""
+    out = []
+    if b'"' not in name and b'\\' not in name:
+        out.append(b'"' + name + b'"')
+    if b"'" not in name and b'\\' not in name:
+        out.append(b"'" + name + b"'")
+    out.append(b'"' + name.replace(b'\\', b'\\\\').replace(b'"', b'\\"') + b'"')
+    for lvl in range(3):
+        cl = b']' + b'=' * lvl + b']'
+        if cl not in name and not name.endswith(b']') and not name.startswith(b'\n'):
+            out.append(b'[' + b'=' * lvl + b'[' + name + cl)
+            break
+    return out
+
+
+def odd_name_cases():
+    """Package names that need care when they are written back as a string literal: quotes of either kind,
+    backslashes, blanks, brackets, keywords, glyph bytes.  Required from main and (shared) from another package."""
+    out = []
+    for i, name in enumerate(ODD_NAMES):
+        fname = name.decode('latin-1').encode('latin-1')
+        files = {os.fsdecode(fname) + '.lua': b'odd=%d\n' % i, 'util.lua': b'u=1\n'}
+        lits = lua_literals(name)
+        for j, lit in enumerate(lits):
+            main = b'require(' + lit + b')\nrequire("util")\nx=require ' + lits[(j + 1) % len(lits)] + b'\nz=1\n'
+            out.append(('odd-name-%d-%d' % (i, j), files, main, [], None, {name: os.fsdecode(fname) + '.lua', b'util': 'util.lua'}))
+    return out
+
+
 def path_cases():
     # (files, main source, build args, env, expected packages {name: file})
     return [
@@ -319,7 +354,7 @@ def path_cases():
          b'require("util")\nrequire("util/vec")\nz=1\n', [], None, {b'util': 'util.lua', b'util/vec': 'util/vec.lua'}),
         ('dir-named-like-package-loadpath', {'lib/util.lua': b'u=1\n', 'lib/util/vec.lua': b'v=2\n', 'util/x.lua': b'w=3\n'},
          b'require("util")\nz=1\n', ['--lua-path', 'lib/?;lib/?.lua'], None, {b'util': 'lib/util.lua'}),
-    ] + nested_loadpath_cases()
+    ] + nested_loadpath_cases() + odd_name_cases()
 
 
 def run_path(pc, res):
